@@ -239,6 +239,19 @@ func (bc *boolConv) stmts(list []ast.Stmt, env map[string]ast.Expr, k *boolExpr)
 		return k, nil
 	}
 	switch s := list[0].(type) {
+	case *ast.AssignStmt:
+		// x := expr (a definition used later): substitute
+		if s.Tok == token.DEFINE && len(s.Lhs) == 1 && len(s.Rhs) == 1 {
+			if id, ok := s.Lhs[0].(*ast.Ident); ok {
+				env2 := map[string]ast.Expr{}
+				for k2, v := range env {
+					env2[k2] = v
+				}
+				env2[id.Name] = substAST(s.Rhs[0], env)
+				return bc.stmts(list[1:], env2, k)
+			}
+		}
+		return nil, fmt.Errorf("unsupported assignment in a predicate")
 	case *ast.ReturnStmt:
 		if len(s.Results) != 1 {
 			return nil, fmt.Errorf("return with %d results", len(s.Results))
@@ -355,48 +368,100 @@ func c12r2(p *Prog, r *Reporter) {
 // ---------- R3 ----------
 
 func c12r3(p *Prog, r *Reporter) {
-	fd := p.FuncDecl("ecs", "", "subscription")
-	if fd == nil {
+	fn := p.Fn("ecs.subscription")
+	if fn == nil {
 		r.Anchor("ecs.subscription")
 		return
 	}
-	info := p.Pkgs["ecs"].TypesInfo
-	var params []string
-	for _, f := range fd.Type.Params.List {
-		for _, n := range f.Names {
-			params = append(params, n.Name)
+	ev := p.Pkgs["event"]
+	// documented positional order of the arguments of subscription()
+	want := []string{"EntityCreated", "EntityRemoved", "ComponentAdded", "ComponentRemoved", "RelationChanged", "TargetChanged"}
+	var bools []*ssa.Parameter
+	for _, pr := range fn.Params {
+		if bt, ok := pr.Type().Underlying().(*types.Basic); ok && bt.Kind() == types.Bool {
+			bools = append(bools, pr)
 		}
 	}
-	want := []string{"entityCreated", "entityRemoved", "componentAdded", "componentRemoved", "relationChanged", "targetChanged"}
-	if strings.Join(params, ",") != strings.Join(want, ",") {
-		r.Bad("ecs.subscription", "parameter order", p.Pos(fd.Pos()), "parameters are "+strings.Join(params, ",")+", documented order is "+strings.Join(want, ","))
+	if len(bools) != len(want) {
+		r.Bad("ecs.subscription", "parameter list", p.FnPos(fn), fmt.Sprintf("%d bool parameters, the documented list has %d", len(bools), len(want)))
 		return
 	}
-	found := map[string]string{}
-	ast.Inspect(fd.Body, func(n ast.Node) bool {
-		ifs, ok := n.(*ast.IfStmt)
-		if !ok {
-			return true
+	// which constants are OR-ed in under which parameter's true edge; every OR result must reach the return value
+	reaches := func(v ssa.Value) bool {
+		seen := map[ssa.Value]bool{}
+		var walk func(x ssa.Value) bool
+		walk = func(x ssa.Value) bool {
+			if seen[x] || x.Referrers() == nil {
+				return false
+			}
+			seen[x] = true
+			for _, ref := range *x.Referrers() {
+				switch y := ref.(type) {
+				case *ssa.Return:
+					return true
+				case *ssa.Phi:
+					if walk(y) {
+						return true
+					}
+				case *ssa.BinOp:
+					if y.Op == token.OR && walk(y) {
+						return true
+					}
+				case *ssa.Store:
+					// spilled named result: loads of the same cell
+					if al, ok := y.Addr.(*ssa.Alloc); ok {
+						for _, r2 := range *al.Referrers() {
+							if ld, ok := r2.(*ssa.UnOp); ok && walk(ld) {
+								return true
+							}
+						}
+					}
+				}
+			}
+			return false
 		}
-		id, ok := unparen(ifs.Cond).(*ast.Ident)
-		if !ok || len(ifs.Body.List) != 1 {
-			return true
+		return walk(v)
+	}
+	for i, pr := range bools {
+		var consts []string
+		for _, b := range fn.Blocks {
+			for _, ins := range b.Instrs {
+				bo, ok := ins.(*ssa.BinOp)
+				if !ok || bo.Op != token.OR {
+					continue
+				}
+				var c *ssa.Const
+				if k, ok := bo.Y.(*ssa.Const); ok {
+					c = k
+				} else if k, ok := bo.X.(*ssa.Const); ok {
+					c = k
+				}
+				if c == nil || c.Value == nil {
+					continue
+				}
+				if !factBefore(fn, bo, pr.Name()+"=true") {
+					continue
+				}
+				other := false
+				for _, q := range bools {
+					if q != pr && factBefore(fn, bo, q.Name()+"=true") {
+						other = true
+					}
+				}
+				if other || !reaches(bo) {
+					continue
+				}
+				consts = append(consts, c.Value.ExactString())
+			}
 		}
-		as, ok := ifs.Body.List[0].(*ast.AssignStmt)
-		if !ok || as.Tok != token.OR_ASSIGN {
-			return true
+		wc, _ := ev.Types.Scope().Lookup(want[i]).(*types.Const)
+		if wc == nil {
+			r.Anchor("event." + want[i])
+			continue
 		}
-		v := ""
-		if tv, ok := info.Types[as.Rhs[0]]; ok && tv.Value != nil {
-			v = tv.Value.ExactString()
-		}
-		found[id.Name] = p.src(as.Rhs[0]) + "=" + v
-		return true
-	})
-	for i, pn := range want {
-		constName := "event." + strings.ToUpper(pn[:1]) + pn[1:]
-		wantV := fmt.Sprintf("%s=%d", constName, 1<<i)
-		r.Check(found[pn] == wantV, "ecs.subscription", "parameter "+pn, p.Pos(fd.Pos()), "ORs "+found[pn]+"; expected "+wantV)
+		okc := len(consts) == 1 && consts[0] == wc.Val().ExactString()
+		r.Check(okc, "ecs.subscription", fmt.Sprintf("argument %d sets event.%s", i+1, want[i]), p.FnPos(fn),
+			fmt.Sprintf("under the true edge of bool parameter %d exactly the constant %s (event.%s) is OR-ed into the result; found %v", i+1, wc.Val().ExactString(), want[i], consts))
 	}
 }
 
@@ -638,7 +703,7 @@ func c12r4(p *Prog, r *Reporter) {
 			}
 			// non-nil side: Mask.Or(..., cmp)
 			for _, i2 := range nonNilSucc.Instrs {
-				if c2, ok := i2.(*ssa.Call); ok && c2.Common().StaticCallee() != nil && c2.Common().StaticCallee().Name() == "Or" {
+				if c2, ok := i2.(*ssa.Call); ok && c2.Common().StaticCallee() != nil && cname(c2.Common().StaticCallee()) == "Or" {
 					for _, a := range c2.Common().Args {
 						if a == ssa.Value(cmp) {
 							orOK = true
@@ -825,7 +890,7 @@ func c12r5(p *Prog, r *Reporter) {
 						}
 					}
 				case *ssa.Call:
-					if sc := x.Common().StaticCallee(); sc != nil && (sc.Name() == "subscribes" || sc.Name() == "subscription") {
+					if sc := x.Common().StaticCallee(); sc != nil && (cname(sc) == "subscribes" || cname(sc) == "subscription") {
 						for _, a := range x.Common().Args {
 							walk(a, d+1)
 						}
